@@ -446,10 +446,30 @@ def behaviour_oracle(records, baseline):
     return bad
 
 
-def baselines(env: _Env, ck=None):
+def baselines(env: _Env, ck=None, started=None):
     """Behaviour under each value of each setting, each taken in a fresh interpreter in which nothing else
-    was ever selected (so no state remembered from another value can colour it)."""
+    was ever selected (so no state remembered from another value can colour it).
+    `started` = the result of `baselines_start` (the interpreters were launched earlier and ran meanwhile)."""
     import json
+
+    if started is None:
+        started = baselines_start()
+    base, asym, jobs, procs = started
+    for (j, k), pr in zip(jobs, procs):
+        out, err = pr.communicate(timeout=180)
+        try:
+            got_ = json.loads(out.strip().splitlines()[-1])
+            base[j][k] = got_[0]
+            if j == 1:
+                asym[k] = got_[1]
+        except Exception:  # noqa: BLE001
+            if ck is not None:
+                ck.broken("correspondence", f"C16 baseline of {MANAGERS[j]}={k} not observable", (err or out)[-300:])
+    base.append(asym)
+    return base
+
+
+def baselines_start():
     import os
     import subprocess
 
@@ -472,18 +492,7 @@ def baselines(env: _Env, ck=None):
     jobs = [(j, k) for j in range(3) for k in range(len(base[j]))]
     procs = [subprocess.Popen([core.PY, "-c", code, str(j), str(k)], stdout=subprocess.PIPE, stderr=subprocess.PIPE,
                               text=True, env=e) for j, k in jobs]
-    for (j, k), pr in zip(jobs, procs):
-        out, err = pr.communicate(timeout=180)
-        try:
-            got_ = json.loads(out.strip().splitlines()[-1])
-            base[j][k] = got_[0]
-            if j == 1:
-                asym[k] = got_[1]
-        except Exception:  # noqa: BLE001
-            if ck is not None:
-                ck.broken("correspondence", f"C16 baseline of {MANAGERS[j]}={k} not observable", (err or out)[-300:])
-    base.append(asym)
-    return base
+    return base, asym, jobs, procs
 
 
 
@@ -859,6 +868,10 @@ def run(ck: core.Check):
     except Exception as e:  # noqa: BLE001
         ck.broken("correspondence", "C16 spox._future not observable", f"{type(e).__name__}: {e}")
         return
+    try:
+        early = baselines_start()  # 12 fresh interpreters, running while the histories below are executed
+    except Exception:  # noqa: BLE001
+        early = None
     rng = ck.rng
     cases = []
     maxn = ck.pick(3, 4)
@@ -953,8 +966,8 @@ def run(ck: core.Check):
     bstats = {"histories": 0, "behaviour_snapshots": 0, "mismatches": 0}
     try:
         env.prepare_probes()
-        env.asym_left = ck.pick(18, 150)
-        base = baselines(env, ck)
+        env.asym_left = ck.pick(18, 100)
+        base = baselines(env, ck, early)
         ck.cov["behaviour_baselines"] = {MANAGERS[j]: base[j] for j in range(3)}
         ck.cov["behaviour_baselines"]["asymmetric_operators_per_backend"] = base[3] if len(base) > 3 else None
         if len(base) > 3 and None not in base[3] and len(set(base[3][1:])) < 2:
@@ -1015,7 +1028,7 @@ def run(ck: core.Check):
     try:
         if not hasattr(env, "p_const"):
             env.prepare_probes()
-        n_car = ck.pick(35, 315)
+        n_car = ck.pick(35, 210)
         scs_ = [gen_carrier_scenario(rng, k) for k in range(n_car)]
         try:
             cmodel = ck.driver().ask_many("C16", [{"init": sc["init"], "blocks": strip(sc["blocks"])} for sc in scs_])
